@@ -564,15 +564,17 @@ def one_of(b, name, options):
 def _(c):
     """Every configuration field is taken from ITS OWN settings key; the deferral table maps each configured code to its
     own mode (last entry wins for a repeated code); the @-command table keeps every configured action, grouped by
-    command in configuration order.  Bounded in the number of configured entries (0..2 each) only."""
+    command in configuration order.  Bounded in the number of configured entries (0..2 codes, 0..3 actions incl. an
+    interleaved A, B, A order) only."""
     def pre(b):
         p = mk_plugin(b, **state_fields(b))
         ng = b.choose(3, "configured extended codes")
         gk = GCODE_CFG[b.choose(len(GCODE_CFG), "codes")] if ng == 2 else GCODE_CFG[0]
         gcodes = [b.dict({"gcode": gk[i], "mode": one_of(b, "cfg.mode%d" % i, MODES), "description": b.string("gdesc%d" % i)})
                   for i in range(ng)]
-        na = b.choose(3, "configured @-command actions")
-        ak = ATCMD_CFG[b.choose(len(ATCMD_CFG), "commands")] if na == 2 else ATCMD_CFG[0]
+        na = b.choose(4, "configured @-command actions")
+        ak = ATCMD_CFG[b.choose(len(ATCMD_CFG), "commands")] if na == 2 else \
+            (("ExcludeRegion", "Other", "ExcludeRegion") if na == 3 else ATCMD_CFG[0])
         acts = [b.dict({"command": ak[i], "parameterPattern": [None, "^\\s*(enable|on)"][b.choose(2, "pattern %d" % i)],
                         "action": one_of(b, "cfg.action%d" % i, ACTIONS), "description": b.string("adesc%d" % i)})
                 for i in range(na)]
